@@ -5,7 +5,7 @@ import os
 import sys
 from pathlib import Path
 
-sys.path.insert(0, "/repo")
+sys.path.insert(0, os.environ.get("VERIF_REPO", "/repo"))
 
 from apt_mirror.download.download_file import (  # noqa: E402
     DownloadFile, FileCompression, HashSum, HashType)
